@@ -158,6 +158,28 @@ def run_c04(tier, replay=None):
                  "overrides": {"walls": {U(2): {"u_value": 0.5}, U(3): {}}, "windows": {U(4): {"u_value": 1.5, "f_shobst": 0.8}, U(5): {"f_shobst": 0.5}}}}
         reqs.append({"id": len(meta), "json": json.dumps(model), "want_out": True})
         meta.append(("materials", mats, model["overrides"]))
+        # (2b) containers that are omitted as a whole when "empty" (ConsDb, SchedulesDb, PropsOverrides): every pattern of
+        # empty / non-empty members; the key must be there exactly when some member has content, and nothing may be lost
+        containers = {"cons": [("wallcons", "WallCons"), ("wincons", "WinCons"), ("materials", None), ("glasses", "Glass"), ("frames", "Frame")],
+                      "schedules": [("year", "Schedule"), ("week", "ScheduleWeek"), ("day", "ScheduleDay")],
+                      "overrides": [("walls", None), ("windows", None)]}
+        for cname, members in containers.items():
+            for pattern in itertools.product([False, True], repeat=len(members)):
+                model = {"meta": copy.deepcopy(base["Meta"])}
+                cont = {}
+                for (mname, struct), on in zip(members, pattern):
+                    if not on:
+                        continue
+                    if cname == "overrides":
+                        cont[mname] = {U(7): {"u_value": 0.5}} if mname == "walls" else {U(8): {"f_shobst": 0.8}, U(9): {"u_value": 1.25}}
+                    elif struct is None:
+                        cont[mname] = [{"id": U(2100), "name": "M", "resistance": 0.18}]
+                    else:
+                        cont[mname] = [copy.deepcopy(base[struct])]
+                if cont or rng.random() < 0.5:
+                    model[cname] = cont
+                reqs.append({"id": len(meta), "json": json.dumps(model), "want_out": True})
+                meta.append(("container", cname, any(pattern), cont))
         # (3) shipped model files
         ddir = os.path.join(REPO, "bemodel/tests/data")
         for p in sorted(os.listdir(ddir)):
@@ -192,6 +214,13 @@ def run_c04(tier, replay=None):
                     events.append({"ev": "Keys", "struct": mt[1], "fields": [{"field": x["field"], "class": x["class"], "present": x["field"] in inst} for x in d]})
             if mt[0] == "metakeys" and isinstance(out, dict):
                 events.append({"ev": "Keys", "struct": "Meta", "fields": [{"field": x["field"], "class": x["class"], "present": x["field"] in out.get("meta", {})} for x in mt[1]]})
+            if mt[0] == "container" and isinstance(out, dict):
+                events.append({"ev": "Keys", "struct": "Model", "fields": [{"field": mt[1], "class": "other" if mt[2] else "empty", "present": mt[1] in out}]})
+                oc = out.get(mt[1]) or {}
+                # a member that is empty may be written as an empty collection or left out
+                same = all((oc.get(k) or None) == (mt[3].get(k) or None) for k in set(oc) | set(mt[3]))
+                events.append({"ev": "Roundtrip", "src": "container " + mt[1], "loads": ans["loads"], "debug_equal": ans["debug_equal"] and same,
+                               "text_equal": ans["text_equal"], "value_equal": same, "shipped": True, "err": ""})
             if mt[0] == "materials" and isinstance(out, dict):
                 got = (out.get("cons") or {}).get("materials") or []
                 same = got == mt[1] and out.get("overrides") == mt[2]
